@@ -211,21 +211,25 @@ def pipe_blocked_state(pid):
         if nr == 0:
             h = os.open(path, os.O_RDONLY | os.O_NONBLOCK)
             try:
-                buf = fcntl.ioctl(h, FIONREAD, b"\0\0\0\0")
-                avail = struct.unpack("i", buf)[0]
+                p = select.poll()
+                p.register(h, select.POLLIN)
+                r = p.poll(0)
+                # data to read, or no writer left (end-of-file): the reader is about to move
+                moving = bool(r and (r[0][1] & (select.POLLIN | select.POLLHUP | select.POLLERR)))
             finally:
                 os.close(h)
-            return ("read", fd, ino, avail == 0)
+            return ("read", fd, ino, not moving)
         else:
             h = os.open(path, os.O_WRONLY | os.O_NONBLOCK)
             try:
                 p = select.poll()
                 p.register(h, select.POLLOUT)
                 r = p.poll(0)
-                writable = bool(r and (r[0][1] & select.POLLOUT))
+                # room in the pipe, or no reader left (EPIPE): the writer is about to move
+                moving = bool(r and (r[0][1] & (select.POLLOUT | select.POLLERR | select.POLLHUP)))
             finally:
                 os.close(h)
-            return ("write", fd, ino, not writable)
+            return ("write", fd, ino, not moving)
     except OSError:
         return None
 
